@@ -23,7 +23,7 @@ def explore(ck, label="gp_reference", focus="all"):
     return r.printed
 
 
-def regressor(pb, variant="auto", order=None):
+def regressor(pb, variant="auto", order=None, xint=False, units=0):
     """variant: 'err' (y_err = sqrt of the diagonal), 'cov' (y_cov matrix), 'covlist' (y_cov as nested lists), 'errlist', 'none'"""
     from inference.gp import GpRegressor
     X = np.array(pb["X"], dtype=float)
@@ -35,6 +35,14 @@ def regressor(pb, variant="auto", order=None):
     cov, cth = G.build_kernel(pb["kern"], d, n)
     mean, mth = G.build_mean(pb["mean"])
     hp = np.array(list(mth) + list(cth), dtype=float)
+    if units:
+        # the same problem in units 2^units times larger: data, data errors, prior mean and prior amplitude (single-amplitude kernels)
+        c_ = 2.0 ** units
+        y, sig = y * c_, sig * c_ * c_
+        hp[:len(mth)] *= c_
+        hp[len(mth)] += np.log(c_)
+    if xint:
+        X = X.astype(int)            # whole-number coordinates given as an integer array
     kw = {}
     diagonal = np.allclose(sig, np.diag(np.diag(sig)))
     if variant == "auto":
